@@ -426,3 +426,29 @@ def rule_chunk_header_length(ctx):
         ctx.violated("HDRLEN", key, f.where(), "the header length stored differs between the kinds of chunked element: %s — one kind announces a header of another size than the one written" % "; ".join(
             "%s: const %+d" % ("/".join(str(l) for l in lab), forms[lab].get("", 0)) for lab in forms))
     return 1
+
+
+def rule_cache_open_flags(ctx):
+    """MCFLAG (C04): mcache_open's last argument says whether the object the cache fronts already exists: 0 = every page is first
+    brought in through the page-in filter, 1 (MCACHE_EXTEND-style) = pages start out as blank memory.  The chunk layer relies on
+    the page-in filter (HMCPchunkread) to give a never-written chunk the fill value, and mcache.c documents "for 'flags' input
+    only '0' should be used for now".  Every mcache_open call in the library passes the constant 0: with any other value the
+    unwritten part of a partially written chunk is whatever malloc returned, and it is flushed to the file."""
+    from .facts import kind, strip, is_int, render
+    prog = ctx.prog
+    n = 0
+    for f in prog.lib_funcs():
+        k = 0
+        for _b, _i, s, c in f.calls():
+            if c[1] != "mcache_open" or not c[3]:
+                continue
+            k += 1
+            n += 1
+            key = "MCFLAG:%s#%d" % (f.name, k)
+            a = c[3][-1]
+            if is_int(a, 0):
+                ctx.holds("MCFLAG", key, f.where(s.get("l", f.line)), "mcache_open(.., 0): pages are brought in through the page-in filter", nontrivial=True)
+            else:
+                ctx.violated("MCFLAG", key, f.where(s.get("l", f.line)), "mcache_open is called with flags `%s`: pages of this cache start out as uninitialised memory instead of going through the page-in filter that supplies the fill value" % render(a)[:30])
+    ctx.floor("MCFLAG", 2, n, "(mcache_open calls)")
+    return n
